@@ -132,6 +132,14 @@ let external_id = match nervusdb_storage::verif::now_nanos() {
                 crate::ast::RelationshipDirection::RightToLeft => (right_node_id, left_node_id),
             };
 
+            // The statement's snapshot still shows nodes that an earlier statement of the same
+            // transaction deleted; a relationship to them would dangle after commit.
+            if txn.is_node_deleted_in_txn(src_id) || txn.is_node_deleted_in_txn(dst_id) {
+                return Err(Error::Other(
+                    "execution error: cannot create a relationship to a node deleted in this transaction"
+                        .to_string(),
+                ));
+            }
             txn.create_edge(src_id, rel_type, dst_id)?;
             created_count += 1;
 
@@ -342,8 +350,29 @@ fn collect_delete_targets_from_value(
     Ok(())
 }
 
+/// Relationships attached to `node` as this transaction sees them: what the statement's
+/// snapshot shows, minus relationships the transaction already deleted, plus relationships it
+/// created (earlier in this statement or in an earlier statement of an explicit transaction).
+fn attached_edges<S: GraphSnapshot>(
+    snapshot: &S,
+    txn: &dyn WriteableGraph,
+    node_id: InternalNodeId,
+) -> std::collections::HashSet<EdgeKey> {
+    let mut attached = std::collections::HashSet::new();
+    for edge in snapshot.neighbors(node_id, None) {
+        attached.insert(edge);
+    }
+    for edge in snapshot.incoming_neighbors(node_id, None) {
+        attached.insert(edge);
+    }
+    attached.retain(|edge| !txn.is_edge_deleted_in_txn(*edge));
+    attached.extend(txn.staged_edges_of(node_id));
+    attached
+}
+
 fn ensure_non_detach_delete_safety<S: GraphSnapshot>(
     snapshot: &S,
+    txn: &dyn WriteableGraph,
     detach: bool,
     nodes_to_delete: &[InternalNodeId],
     explicit_edges: &std::collections::HashSet<EdgeKey>,
@@ -353,13 +382,7 @@ fn ensure_non_detach_delete_safety<S: GraphSnapshot>(
     }
 
     for &node_id in nodes_to_delete {
-        let mut attached = std::collections::HashSet::new();
-        for edge in snapshot.neighbors(node_id, None) {
-            attached.insert(edge);
-        }
-        for edge in snapshot.incoming_neighbors(node_id, None) {
-            attached.insert(edge);
-        }
+        let attached = attached_edges(snapshot, txn, node_id);
         for edge in attached {
             if !explicit_edges.contains(&edge) {
                 return Err(Error::Other(
@@ -405,19 +428,13 @@ pub(super) fn execute_delete_on_rows<S: GraphSnapshot>(
         }
     }
 
-    ensure_non_detach_delete_safety(snapshot, detach, &nodes_to_delete, &seen_edges)?;
+    ensure_non_detach_delete_safety(snapshot, &*txn, detach, &nodes_to_delete, &seen_edges)?;
 
     if detach {
         let mut detached_edges: std::collections::HashSet<EdgeKey> =
             std::collections::HashSet::new();
         for &node_id in &nodes_to_delete {
-            for edge in snapshot.neighbors(node_id, None) {
-                if detached_edges.insert(edge) {
-                    txn.tombstone_edge(edge.src, edge.rel, edge.dst)?;
-                    deleted_count += 1;
-                }
-            }
-            for edge in snapshot.incoming_neighbors(node_id, None) {
+            for edge in attached_edges(snapshot, &*txn, node_id) {
                 if detached_edges.insert(edge) {
                     txn.tombstone_edge(edge.src, edge.rel, edge.dst)?;
                     deleted_count += 1;
@@ -544,7 +561,7 @@ pub(super) fn execute_delete<S: GraphSnapshot>(
         }
     }
 
-    ensure_non_detach_delete_safety(snapshot, detach, &nodes_to_delete, &seen_edges)?;
+    ensure_non_detach_delete_safety(snapshot, &*txn, detach, &nodes_to_delete, &seen_edges)?;
 
     // If detach=true, delete all edges connected to nodes being deleted
     if detach {
@@ -552,13 +569,7 @@ pub(super) fn execute_delete<S: GraphSnapshot>(
             std::collections::HashSet::new();
         for &node_id in &nodes_to_delete {
             // Get all edges connected to this node and delete them
-            for edge in snapshot.neighbors(node_id, None) {
-                if detached_edges.insert(edge) {
-                    txn.tombstone_edge(edge.src, edge.rel, edge.dst)?;
-                    deleted_count += 1;
-                }
-            }
-            for edge in snapshot.incoming_neighbors(node_id, None) {
+            for edge in attached_edges(snapshot, &*txn, node_id) {
                 if detached_edges.insert(edge) {
                     txn.tombstone_edge(edge.src, edge.rel, edge.dst)?;
                     deleted_count += 1;
